@@ -26,7 +26,7 @@ import (
 // The interceptors are invoked directly with a recording fake invoker / handler: no network needed.
 
 type grpcScenario struct {
-	Side       string   `json:"side"` // client | server
+	Side       string   `json:"side"`  // client | server
 	Codes      []string `json:"codes"` // per attempt: OK or a status code name; "plain" = a non-status error
 	MaxRetries int      `json:"max_retries"`
 	CallCtx    string   `json:"call_ctx"` // background values deadline metadata values+deadline+metadata cancellable
@@ -257,7 +257,6 @@ func runGRPC(sc grpcScenario) (violation, sig string) {
 	}
 	return "", ""
 }
-
 
 func TestGRPC(t *testing.T) {
 	const test = "TestGRPC"
